@@ -35,6 +35,9 @@ type UpdCase struct {
 	FileLink bool `json:"file_link,omitempty"`
 	// AsmLink: regex-assembly is a symbolic link to a directory elsewhere (a shared checkout of the assembly files)
 	AsmLink bool `json:"asm_link,omitempty"`
+	// AltCfg: the configuration in force has another name and every command gets it with -f; a file with the
+	// default name and other patterns lies next to it
+	AltCfg bool `json:"alt_cfg,omitempty"`
 }
 
 func (c UpdCase) Arg() string {
@@ -147,11 +150,16 @@ func genUpdCase(t *rapid.T, withEdit bool) UpdCase {
 		c.EditKind = rapid.SampledFrom([]string{"sub", "ins", "del"}).Draw(t, "edit")
 		c.EditPos = rapid.IntRange(0, 9999).Draw(t, "editpos")
 	}
+	if rapid.IntRange(0, 3).Draw(t, "altcfg") == 0 {
+		c.AltCfg = true
+		lab["configuration-named-with--f"] = true
+	}
 	c.Lab = labelsOf(lab)
 	return c
 }
 
 type updEnv struct {
+	global    []string
 	sb        *cli.Sandbox
 	root      string
 	rulesPath string
@@ -192,6 +200,16 @@ func setupUpd(c UpdCase) *updEnv {
 	tree["rules/REQUEST-933-APPLICATION-ATTACK-PHP.conf"] = "SecRule ARGS \"@rx insync\" \\\n    \"id:933100,\\\n    phase:2\"\n"
 	tree["tests/regression/tests/x/932100.yaml"] = "---\nmeta:\n  name: x\ntests:\n  - test_id: 7\n"
 	root := sb.Path("crs")
+	global := []string{"-d", root}
+	if c.AltCfg {
+		if v, ok := tree["regex-assembly/toolchain.yaml"]; ok {
+			tree["regex-assembly/alt-config.yaml"] = v
+		} else {
+			tree["regex-assembly/alt-config.yaml"] = "patterns:\n  anti_evasion:\n    unix: 'Q?'\n    windows: 'Q?'\n"
+		}
+		tree["regex-assembly/toolchain.yaml"] = "patterns:\n  anti_evasion:\n    unix: 'Z*'\n    windows: 'Z*'\n  anti_evasion_suffix:\n    unix: 'Y'\n    windows: 'Y'\n  anti_evasion_no_space_suffix:\n    unix: 'W'\n    windows: 'W'\n"
+		global = append(global, "-f", "alt-config.yaml")
+	}
 	if err := tree.Write(root); err != nil {
 		panic(err)
 	}
@@ -204,11 +222,11 @@ func setupUpd(c UpdCase) *updEnv {
 		}
 	}
 	cli.Freeze(root)
-	return &updEnv{sb: sb, root: root, rulesPath: "rules/" + c.Rules.Name, original: text, spans: spans}
+	return &updEnv{global: global, sb: sb, root: root, rulesPath: "rules/" + c.Rules.Name, original: text, spans: spans}
 }
 
 func (e *updEnv) run(args ...string) cli.Result {
-	return cli.Run(cli.Opt{Dir: e.sb.Root, Timeout: 30 * time.Second}, append([]string{"-d", e.root}, args...)...)
+	return cli.Run(cli.Opt{Dir: e.sb.Root, Timeout: 30 * time.Second}, append(append([]string{}, e.global...), args...)...)
 }
 
 func checkC11(c UpdCase) Outcome {
